@@ -13,7 +13,7 @@ def run(ctx):
     except build.BuildError as e:
         ctx.tie_broken.append('replay driver: ' + str(e)[:300]); rexe = None
     n = 6 if thorough else 1
-    cases = poolrun.make_cases(ctx, 40 * n, 40 * n, 20 * n, 15 * n, cfgs)
+    cases = poolrun.make_cases(ctx, 40 * n, 40 * n, 20 * n, 45 * n, cfgs)
     # the small free list driven directly, in lock-step with SmallList (chunk order, free chains, both cursors, every address)
     ex_list = {c: build.build_harness('invalid', c, ['h_invalid.cpp'], extra=['-I', os.path.join(build.REPO, 'src')]) for c in cfgs}
     for i in range(20 * n):
